@@ -2,6 +2,7 @@
 From Coq Require Import List NArith String Bool.
 From V Require Import Base.Util Base.Strings Base.Result Model.Registry Model.Settings Model.Subst
   Model.TypePath Model.Derives Model.Generate Model.Emit Model.Equal Model.WellFormed Model.Builders
+  Model.SubstSpec
   Checkers.Parse Checkers.Sem Corr.RunTG.
 Require V.Model.Shape.
 Import ListNotations.
@@ -113,23 +114,8 @@ Definition mentions_path (root : string) (p : list string) (t : pty) : bool :=
 Definition obs_path (c : tg_case) (id : N) : option tokens :=
   match nth_error (tg_paths c) (N.to_nat id) with Some (OOk t) => Some t | _ => None end.
 
-(** every token equal to a source parameter name that stands alone (not a segment of a longer
-    path, no generic arguments of its own) is replaced by the corresponding resolved argument;
-    every other token is unchanged *)
-Fixpoint subst_spec (names : list (string * tokens)) (prev : string) (toks : tokens) : tokens :=
-  match toks with
-  | [] => []
-  | t :: r =>
-      let next := hd "" r in
-      match assoc_str names t with
-      | Some repl =>
-          if String.eqb prev ":" || String.eqb next "<" || String.eqb next ":"
-          then t :: subst_spec names t r
-          else repl ++ subst_spec names t r
-      | None => t :: subst_spec names t r
-      end
-  end.
-
+(** [subst_spec]: Model/SubstSpec.v (the token-level specification, proved equal to the structural
+    replacement under explicit side conditions in Proofs/SubstSpec.v, pinned as [C07_specified]) *)
 Definition prop_subst (c : tg_case) : bool :=
   let r := tg_reg c in
   let s := settings_of (tg_spec c) in
@@ -189,29 +175,8 @@ Definition prop_subst (c : tg_case) : bool :=
   | _ => true
   end.
 
-(** finding F5: a source parameter name inside a NON-path type argument of the target
-    (tuple, array, reference ...) is not replaced (substitutes.rs:289-303) *)
-Fixpoint nonpath_mentions (names : list string) (t : gtype) : bool :=
-  match t with
-  | GTPath _ _ segs =>
-      (fix go (l : list (string * pargs)) : bool :=
-         match l with
-         | [] => false
-         | (_, a) :: l' =>
-             match a with
-             | AAngle args =>
-                 (fix go2 (gs : list garg) : bool :=
-                    match gs with
-                    | [] => false
-                    | GType u :: gs' => nonpath_mentions names u || go2 gs'
-                    | GOther toks :: gs' => existsb (fun n => existsb (String.eqb n) toks) names || go2 gs'
-                    end) args
-             | _ => false
-             end || go l'
-         end) segs
-  | GTOther toks => existsb (fun n => existsb (String.eqb n) toks) names
-  end.
-
+(** finding F5 ([nonpath_mentions]: Model/SubstSpec.v): a source parameter name inside a NON-path
+    type argument of the target (tuple, array, reference ...) is not replaced (substitutes.rs:289-303) *)
 Definition known_F5 (c : tg_case) : bool :=
   existsb (fun kv : list string * substitute =>
              match su_map (snd kv) with
